@@ -356,7 +356,7 @@ def run_find_peaks(ctx):
                     _check_fp(ctx, _fp_case(a, thr, win, border, None, None, False, None),
                               contract='find_peaks=definition/cross')
     # ---- seeded lattice ------------------------------------------------------------------------
-    n_lat = 30000 if ctx.thorough else 5200
+    n_lat = 30000 if ctx.thorough else 4200
     styles = ['random', 'random', 'negative', 'plateau', 'border', 'two']
     for it in range(n_lat):
         h, w = int(rng.integers(1, 10)), int(rng.integers(1, 10))
@@ -1045,7 +1045,7 @@ def eval_finder(case):
 
 def _finder_configs(ctx):
     rng = ctx.rng
-    n_dao, n_iraf, n_sf = (220, 160, 160) if ctx.thorough else (42, 30, 30)
+    n_dao, n_iraf, n_sf = (220, 160, 160) if ctx.thorough else (34, 24, 24)
     minseps = [None, 0.5, 1, 2, 2.5, 3.7, 5, 0]
     shapes = [[41, 53], [37, 45]]
     thrs = [1.0, 0.5, 4.0, 12.0]
